@@ -17,6 +17,8 @@ for f in mutants/c[0-9][0-9]_*.diff; do
 done
 for d in seeded/C*/; do
   id=$(basename "$d")
+  # a seeded change whose defect class has since been repaired in /repo no longer violates the property (see its meta.json)
+  if grep -q '"status": "obsolete' "$d/meta.json" 2>/dev/null; then echo "| seeded/$id/patch.diff | $id | OBSOLETE (see seeded/$id/meta.json) | |"; continue; fi
   r=$(tools/muttest.sh "$d/patch.diff" "$id" 2>&1 | tail -1)
   res=$(echo "$r" | awk '{print $1}')
   key=$(echo "$r" | sed -n 's/.*violation key=\([^ ]*\): .*/\1/p' | cut -c1-90)
